@@ -203,11 +203,20 @@ Definition eff (lvl : nat) (e : exp) : nat := if level e <? lvl then 13 else lev
 Lemma level_le_13 e : level e <= 13.
 Proof. destruct e; simpl; unfold unop_prec; try lia. pose proof (prec_le_11 o). lia. Qed.
 
-Lemma norm_not_call e : level e < 13 -> is_call (norm e) = false.
+Lemma norm_not_multi e : level e < 12 -> multi_valued (norm e) = false.
 Proof. destruct e; simpl; unfold unop_prec; intros; try reflexivity; lia. Qed.
 
-Lemma in_brackets_norm e : level e < 13 -> in_brackets (norm e) = norm e.
-Proof. intros H. unfold in_brackets. rewrite norm_not_call; auto. Qed.
+Lemma in_brackets_norm e : level e < 12 -> in_brackets (norm e) = norm e.
+Proof.
+  intros H. pose proof (norm_not_multi e H) as Hm.
+  destruct (norm e); simpl in *; try reflexivity; discriminate.
+Qed.
+
+Lemma in_brackets_target e : level e < 13 -> in_brackets (norm e) = ntarget e (norm e).
+Proof. destruct e; simpl; unfold unop_prec; intros; try reflexivity; lia. Qed.
+
+Lemma ntarget13 e : level e = 13 -> ntarget e (norm e) = norm e.
+Proof. destruct e; simpl; intros; try discriminate; reflexivity. Qed.
 
 (* the reduce loop breaks for an operator of precedence L after [o] *)
 Definition breaks_at (L : nat) (o : binop) : bool := (prec o <? L) || ((L =? prec o) && (L =? 7)).
